@@ -108,8 +108,6 @@ def run_path(nodes, path, bufsize):
                 return (j, {"return": bytes(exp["last"]["data"]).hex()}, {"return": out.hex()})
             if bytes(w.buffer) != bytes(exp["buffer"]) or w.in_waiting() != len(exp["buffer"]):
                 return (j, {"buffer": bytes(exp["buffer"]).hex()}, {"buffer": bytes(w.buffer).hex(), "in_waiting": w.in_waiting()})
-            if any(b != bufsize for b in sock.bufsizes):
-                return (j, {"recv_bufsize": bufsize}, {"recv_bufsize": sorted(set(sock.bufsizes))})
             i = j + 1
         return None
     finally:
